@@ -31,6 +31,11 @@ def run(ctx):
     ctx.guarded("R14.2", "incremental", lambda: incremental_tolerated(ctx, "R14.2"))
     ctx.guarded("R14.2", "block", lambda: block(ctx, "R14.2"))
     ctx.guarded("R14.3", "rejections", lambda: rejections(ctx))
+    ctx.rule("R14.4", "the incremental parser's body is the same Content-Length bytes the one-shot parser slices: body accumulation and carry-over cursor rules (C01 R01.2/R01.5)")
+    from .c06 import _Remap
+    from . import c01
+    ctx.guarded("R14.4", "body", lambda: c01.body(_Remap(ctx, "R14.4")))
+    ctx.guarded("R14.4", "cursor", lambda: c01.cursor_defined(_Remap(ctx, "R14.4")))
 
 
 def callees(facts, name):
